@@ -35,19 +35,19 @@ Theorem C19_served_at_boundary_any_protocol : forall P s, wf false P = true -> r
 Proof. exact served_at_boundary_gen. Qed.
 Print Assumptions C19_served_at_boundary_any_protocol.
 
-(* full strength "nothing writes the simulation while it is serialised" is still FALSE of the generated protocol, but only for
-   scalar bookkeeping: reb_check_exit (blocks >= 3) writes r->status (a persisted int) outside the mutex; witness in block 3 *)
+(* full strength "nothing at all writes the simulation while it is serialised" is still FALSE of the generated protocol, but only for
+   scalar bookkeeping (see C19_served_boundary_modulo_bookkeeping for the positive statement): reb_check_exit (blocks >= 3) writes r->status (a persisted int) outside the mutex; witness in block 3 *)
 Theorem C19_served_quiescent_refuted :
   exists s, reach gen_system s /\ gz (tS s) = true /\ integ_writing s = true /\ pcb (tI s) = 3.
 Proof. exact gen_served_quiescent_refuted_head. Qed.
 Print Assumptions C19_served_quiescent_refuted.
 
-(* in every reachable state in which a serialisation overlaps a simulation write of the integrator thread, that thread is neither
-   in the loop body (block 1: step, heartbeats) nor in the block after the loop (block 2: synchronize, dt restore, archive) *)
-Theorem C19_overlap_only_prologue_or_check_exit : forall s, reach gen_system s ->
-  gz (tS s) = true -> integ_writing s = true -> pcb (tI s) <> 1 /\ pcb (tI s) <> 2.
-Proof. exact gen_overlap_only_prologue_or_check_exit. Qed.
-Print Assumptions C19_overlap_only_prologue_or_check_exit.
+(* in every reachable state in which a serialisation overlaps a simulation write of the integrator thread, that thread is in
+   reb_check_exit (blocks >= 3): not in the prologue (0), the loop body (1: step, heartbeats) or the block after the loop (2) *)
+Theorem C19_overlap_only_check_exit : forall s, reach gen_system s ->
+  gz (tS s) = true -> integ_writing s = true -> 3 <= pcb (tI s).
+Proof. exact gen_overlap_only_check_exit. Qed.
+Print Assumptions C19_overlap_only_check_exit.
 
 (* reb_simulation_synchronize is called on some path through reb_check_exit, and on no path of any block outside the mutex *)
 Theorem C19_synchronize_always_locked :
@@ -69,7 +69,7 @@ Theorem C19_unlocked_writes_integrator :
   unlocked_writes integ_epilogue = [] /\
   dedup (concat (map unlocked_writes integ_loop_heads)) =
     ["reb_simulation_error_message_waiting"; "field:status"; "reb_simulation_warning"] /\
-  unlocked_writes integ_prologue = ["field:dt"; "field:dt_last_done"; "reb_particle_check_testparticles"; "field:status"; "reb_run_heartbeat"].
+  unlocked_writes integ_prologue = [].
 Proof. exact gen_unlocked_writes_integrator. Qed.
 Print Assumptions C19_unlocked_writes_integrator.
 
@@ -87,48 +87,60 @@ Theorem C19_mutex_users :
    ("rebound.c", "reb_simulation_integrate_raw", "pthread_mutex_lock"); ("rebound.c", "reb_simulation_integrate_raw", "pthread_mutex_unlock");
    ("server.c", "reb_server_start", "pthread_mutex_lock"); ("server.c", "reb_server_start", "pthread_mutex_unlock");
    ("server.c", "reb_simulation_start_server", "pthread_mutex_init")] /\ mutex_functions_avx512 = mutex_functions_default /\
-  (* the helpers and reb_check_exit are called only from inside the modelled integrator program *)
+  (* the helpers and reb_check_exit are called only from inside the modelled programs (integrate_raw, reb_simulation_steps) *)
   mutex_callers =
   [("reb_check_exit", "reb_server_mutex_lock"); ("reb_check_exit", "reb_server_mutex_unlock");
    ("reb_simulation_integrate", "reb_simulation_integrate_raw"); ("reb_simulation_integrate_raw", "reb_check_exit");
-   ("reb_simulation_integrate_raw", "reb_server_mutex_lock"); ("reb_simulation_integrate_raw", "reb_server_mutex_unlock")].
+   ("reb_simulation_integrate_raw", "reb_server_mutex_lock"); ("reb_simulation_integrate_raw", "reb_server_mutex_unlock");
+   ("reb_simulation_steps", "reb_server_mutex_lock"); ("reb_simulation_steps", "reb_server_mutex_unlock")].
 Proof. exact gen_mutex_users. Qed.
 Print Assumptions C19_mutex_users.
 
-(* ---- round 2.  Bookkeeping = {status, dt (sign), dt_last_done} (persisted scalars that reb_simulation_integrate overwrites on
-   entry) + message buffer.  Besides bookkeeping exactly one write is outside the mutex: the user heartbeat in the prologue. *)
+(* ---- Bookkeeping = {status, dt (sign), dt_last_done} (persisted scalars that reb_simulation_integrate overwrites on entry) +
+   message buffer.  Besides bookkeeping NO write of either thread is outside the mutex. *)
 Theorem C19_core_unlocked_writes :
-  unlocked_writes (relabel integ_prologue) = ["reb_run_heartbeat"] /\
+  unlocked_writes (relabel integ_prologue) = [] /\
   concat (map (fun b => unlocked_writes (relabel b)) integ_loop_heads) = [] /\
   unlocked_writes (relabel integ_loop_body) = [] /\ unlocked_writes (relabel integ_epilogue) = [] /\
   concat (map (fun h => unlocked_writes (relabel (snd h))) handlers) = [].
 Proof. exact gen_core_unlocked_writes. Qed.
 Print Assumptions C19_core_unlocked_writes.
 
-(* "a served snapshot equals a step-boundary state except in the bookkeeping fields" is FALSE: a serialisation can overlap the
-   prologue heartbeat (a user callback that may write anything) *)
-Theorem C19_served_boundary_modulo_bookkeeping_refuted :
-  wf true (core_system integ_prologue) = false /\
-  exists s, reach (core_system integ_prologue) s /\ gz (tS s) = true /\ integ_writing s = true /\ pcb (tI s) = 0.
-Proof. exact gen_core_quiescent_refuted. Qed.
-Print Assumptions C19_served_boundary_modulo_bookkeeping_refuted.
-
-(* ... and TRUE for all interleavings once the prologue is inside the mutex (the generated program with only that change) *)
-Theorem C19_served_boundary_modulo_bookkeeping_partial : forall s, reach (core_system prologue_locked) s ->
+(* for ALL interleavings of the generated programs (bookkeeping stores not counted as writes): while a request is serialised no step
+   and no other simulation write is in progress - a served snapshot equals a step-boundary state except possibly in the bookkeeping fields *)
+Theorem C19_served_boundary_modulo_bookkeeping : forall s, reach (core_system integ_prologue) s ->
   gz (tS s) = true -> integ_writing s = false /\ gst (tI s) = false.
-Proof. exact core_patched_quiescent. Qed.
-Print Assumptions C19_served_boundary_modulo_bookkeeping_partial.
+Proof. exact gen_core_quiescent. Qed.
+Print Assumptions C19_served_boundary_modulo_bookkeeping.
 
-(* the stepping entry point reb_simulation_steps (sim.steps(n)) does not take the mutex: served_at_boundary is FALSE for a user
-   thread that steps this way, and TRUE once its loop body is wrapped in the lock *)
-Theorem C19_steps_api_served_at_boundary_refuted :
-  wf false steps_system = false /\ exists s, reach steps_system s /\ serializing s = true /\ in_step s = true.
-Proof. exact gen_steps_refuted. Qed.
-Print Assumptions C19_steps_api_served_at_boundary_refuted.
+(* the stepping entry point reb_simulation_steps (sim.steps(n), sim.step()) obeys the discipline too *)
+Theorem C19_steps_api_served_at_boundary : forall s, reach steps_system s -> serializing s = true -> in_step s = false.
+Proof. exact gen_steps_at_boundary. Qed.
+Print Assumptions C19_steps_api_served_at_boundary.
 
-Theorem C19_steps_api_served_at_boundary_partial : forall s, reach steps_system_patched s -> serializing s = true -> in_step s = false.
-Proof. exact steps_patched_at_boundary. Qed.
-Print Assumptions C19_steps_api_served_at_boundary_partial.
+(* neither statement is vacuous: the pre-fix shapes (generated blocks with their lock actions removed) fail the discipline check *)
+Theorem C19_prefix_shapes_rejected :
+  wf true (core_system (strip_sync integ_prologue)) = false /\
+  wf false (fun w => if w then mkProg [strip_sync steps_loop_body] (fun _ => [0]) else server_prog (map snd handlers)) = false.
+Proof. exact (conj old_prologue_core_not_wf old_steps_not_wf). Qed.
+Print Assumptions C19_prefix_shapes_rejected.
+
+(* ---- serving requests never alters the trajectory state (model level): the regenerated write-set of everything a request triggers -
+   all handler blocks, and the regions of reb_check_exit / reb_simulation_integrate_raw that are control-dependent on a status value a
+   request can set - is {status} (+ the user's own key_callback); the only calls there are sleeps / mutex helpers; no handler steps *)
+Theorem C19_requests_preserve_trajectory_state :
+  request_triggered_writes = ["field:status"] /\
+  forallb (fun c => existsb (String.eqb c) allowed_request_calls) request_triggered_calls = true /\
+  request_triggered_regions = 3 /\
+  request_guard_constants = ["REB_STATUS_PAUSED"; "REB_STATUS_RUNNING"; "REB_STATUS_SCREENSHOT"; "REB_STATUS_SINGLE_STEP"; "REB_STATUS_USER"] /\
+  forallb (forallb srv_act_ok) (blocks (gen_system false)) = true.
+Proof. exact gen_request_write_set. Qed.
+Print Assumptions C19_requests_preserve_trajectory_state.
+
+Theorem C19_server_thread_writes_only_status : forall s x, reach gen_system s ->
+  nth_error (cur_block gen_system false (tS s)) (pco (tS s)) = Some x -> srv_act_ok x = true.
+Proof. exact gen_server_actions_ok. Qed.
+Print Assumptions C19_server_thread_writes_only_status.
 
 (* the request loop closes every connection descriptor exactly once (no fclose(fdopen(fd)) followed by close(fd)) *)
 Theorem C19_server_closes_each_descriptor_once : server_double_close_sites = 0.
